@@ -566,6 +566,8 @@ func runCase(line string) string {
 				}
 			}
 			return fmt.Sprintf("ok %d %d %d %d %d %d", rt, tried, rejected, same, dtried, drejected)
+		case "FK":
+			return runFK(f)
 		case "LD":
 			return runLoader(f)
 		case "LP":
@@ -1026,6 +1028,8 @@ func main() {
 		emit("PK", hx.Hex(oct))
 		emit("PS", hx.Hex(oct), strconv.Itoa(i%2))
 	}
+	// ---- key files of foreign encoders
+	genFK(r, emit)
 	// ---- passwords
 	pw := [][]byte{{}, []byte("a"), []byte("Passw0rd-C14"), []byte("pässwörd-密码-🔑"), bytes.Repeat([]byte("0123456789abcdeF"), 64), r.Bytes(32), []byte("trailing space ")}
 	for i := 0; i < 14*scale; i++ {
